@@ -326,6 +326,8 @@ func runC11(c *Ctx, pr *PropertyRun) {
 
 	c11Accounting(c, pr)
 	propSetTables(c, pr, "C11", []string{pkgWebdav, pkgCaldav, pkgCarddav})
+	// property functions are run long after the table was built
+	loopCaptureRule(c, pr, "C11")
 
 	davScopeTables(c, pr, "C11", true)
 
@@ -528,6 +530,13 @@ func c11Accounting(c *Ctx, pr *PropertyRun) {
 		se := zeroOf(startT).(Struct)
 		se.F[0].Set(mkName(local))
 		st.F[0].Set(Iface{Dyn: startT, V: se})
+		// the client's element carries content (a calendar-data selection,
+		// text): what is filed under 404 must be an EMPTY element of that
+		// name, not the client's own element echoed back
+		child := zeroOf(rawT).(Struct)
+		cdT := p.lookupType("encoding/xml", "CharData")
+		child.F[0].Set(Iface{Dyn: cdT, V: Opaque{"CharData:client-content", cdT}})
+		st.F[1].Set(Slice{E: []*Cell{{V: child, T: rawT}}, NonNil: true})
 		return st
 	}
 	// the available properties: "known" (value or failing getter); resourcetype is added by the function itself
@@ -550,6 +559,9 @@ func c11Accounting(c *Ctx, pr *PropertyRun) {
 						if ptr, ok := iv.V.(Ptr); ok {
 							if st, ok := ptr.C.Get().(Struct); ok && namedOf(st.T) == rawT {
 								what = "empty<" + rawLocalName(st) + ">"
+								if len(elemsOf(in, st.F[1].Get())) > 0 {
+									what = "the-request's-own-element-with-its-content<" + rawLocalName(st) + ">"
+								}
 							}
 						} else {
 							what = keyOf(iv.V)
